@@ -351,3 +351,53 @@ pub fn run(args: &Args) -> i32 {
         &["interleavings finer than storage-operation granularity are not explored", "the poller bound is the conservative one (warm epoch + number of notifications)", "blake3 collision resistance", "tokio 1.53 current-thread semantics with paused time"],
     )
 }
+
+/// re-execute one recorded schedule (identity = cfg/<case name>/kind) twice and re-judge it
+pub fn replay(args: &Args, identity: &str, choices: Vec<u32>) -> i32 {
+    let parts: Vec<&str> = identity.split('/').collect();
+    if parts.len() < 3 {
+        eprintln!("unrecognised identity {identity}");
+        return 2;
+    }
+    let name = parts[1..parts.len() - 1].join("/");
+    fn go<TC: ModelCfg>(args: &Args, name: &str, choices: Vec<u32>) -> i32 {
+        let mut all = cases::<TC>(false);
+        all.extend(cases::<TC>(true));
+        let Some(case) = all.into_iter().find(|c| c.name == name) else {
+            eprintln!("scenario {name} not found");
+            return 2;
+        };
+        let rep = Report::new("C13", &args.tier, "model_checking");
+        let mut traces = vec![];
+        for _ in 0..2 {
+            let mut ch = Chooser::new(choices.clone(), None);
+            let out = run_scenario::<TC>(&case.sc, &mut ch);
+            if let Some(d) = &ch.diverged {
+                eprintln!("MACHINERY ERROR: replay diverged: {d}");
+                return 2;
+            }
+            traces.push(show_steps(&out));
+            rep.eval(1);
+            rep.states(out.steps.len() as u64, out.steps.len() as u64);
+            rep.traces(1);
+            judge::<TC>(&rep, &case, &out, &ch);
+        }
+        if traces[0] != traces[1] {
+            eprintln!("MACHINERY ERROR: the same schedule produced two different traces");
+            return 2;
+        }
+        println!("replayed schedule ({} steps):\n{}", traces[0].len(), traces[0].join("\n"));
+        let n = rep.violation_count();
+        println!("verdict: {}", if n > 0 { "violation reproduced" } else { "no violation on this tree" });
+        if n > 0 {
+            1
+        } else {
+            0
+        }
+    }
+    if parts[0] == "experimental" {
+        go::<E>(args, &name, choices)
+    } else {
+        go::<W>(args, &name, choices)
+    }
+}
